@@ -32,6 +32,7 @@ MUTS_COMMUNITY = [
     "comm-prefix",
     "comm-empty",
     "comm-longer",
+    "comm+256",  # the session's community followed by 256 more octets (length difference invisible modulo 256)
     "version-other",
     "version-3",
     "trunc-1",
@@ -247,6 +248,8 @@ class Exec:
             community = b""
         elif m == "comm-longer":
             community = community + b"x"
+        elif m == "comm+256":
+            community = community + b"x" * 256
         elif m == "version-other":
             version = 1 - version
         elif m == "version-3":
